@@ -10,6 +10,7 @@ DONE = {
  'C06': 'slashing synchronisation: booked = delegated exactly, pools within 2 units of pro-rata share, unchanged without slashing',
  'C07': 'Receive(Unbond) for both tokens with a symbolic cw20 sender: claim = amount (less peg fee) under (sender, open batch) only, batch/history totals = sum of claims, exact Burn; no other message deletes or writes claims; withdrawal removes only released claims of the caller; queries report stored entries',
  'C08': 'time-lock (release only when time + unbonding_period <= now, boundary seconds witnessed), undelegation only after more than an epoch and exactly once per batch id, released history entries never written by any message',
+ 'C09': 'Receive(Unbond) of 1 <= amount <= supply from any INV-HUB state with stake delegated: every error / panic path infeasible (known finding: zero-pool corner); bond/unbond/convert/withdraw, token transfers and reward claims never query or call swap / oracle (query and message log of every path)',
  'C10': 'every privileged message variant of all six contracts: no Ok path for a sender that is not the designated principal (symbolic sender/message/stored principals); two-step ownership transfer',
  'C11': 'paused hub: every variant except UpdateParams/MigrateUnbondWaitList has no Ok path for any sender; no unpause with legacy entries; queries never read the pause flag',
  'C13': 'registry RemoveValidator (1..3 validators, symbolic address/delegation/can_redelegate): validator gone, never the last one, one RedelegateProxy moving the whole delegation to remaining registered validators + UpdateGlobalIndex; hub proxy forwards 1:1',
